@@ -14,6 +14,7 @@ pub mod c10;
 pub mod c11;
 pub mod c12;
 pub mod c16;
+pub mod c19;
 pub mod c20;
 
 pub fn load_case(path: &str) -> Value {
@@ -56,6 +57,7 @@ pub fn dispatch(id: &str, tier: Tier, replay: Option<&str>) {
         "c11" => c11::run(tier, replay),
         "c12" => c12::run(tier, replay),
         "c16" => c16::run(tier, replay),
+        "c19" => c19::run(tier, replay),
         "c20" => c20::run(tier, replay),
         _ => {
             eprintln!("unknown check {id}");
